@@ -53,19 +53,16 @@ def check_c03(tier, replay=None):
     rep.add_tlc('StoneTok/edits', agg, {'MaxEdits': 1, 'seeds': 4, 'pool': 41})
     rep.add_judged(agg)
     if tier == 'thorough':
-        # two- and three-edit mutants: random behaviours of the same edit machine
-        import tlc
-        from lexcheck import TextJudge
-        j = TextJudge({})
-        r = tlc.run('StoneTok', dict(spec='Spec', constants={'Shard': 0, 'NShards': 1, 'EmitVectors': True, 'Mode': '"edits"',
-                                                              'MaxLen': 0, 'MaxEdits': 3},
-                                     invariants=['TypeOK'], constraints=['Emit']),
-                    workers=1, on_vec=j.on_vec, simulate='num=20000', depth=4, seed=seed(), timeout=3000)
-        j.finish()
-        rep.add_tlc('StoneTok/edits-simulate', {'states': r['states'], 'distinct': 0, 'depth': 4, 'violated': r['violated'],
-                                                'traces': r.get('traces', 0)}, {'MaxEdits': 3, 'num': 20000})
-        rep.add_judged({'judged': j.judged, 'violations': j.violations, 'samples': j.samples, 'skipped': j.skipped,
-                        'kinds': j.kinds})
+        # two- and three-edit mutants: random behaviours of the same edit machine, 16 simulation runs with different seeds
+        res = run_shards('StoneTok',
+                         lambda s: dict(spec='Spec', constants={'Shard': 0, 'NShards': 1, 'EmitVectors': True, 'Mode': '"edits"',
+                                                                'MaxLen': 0, 'MaxEdits': 3},
+                                        invariants=['TypeOK'], constraints=['Emit'],
+                                        _tlc={'simulate': 'num=1250', 'depth': 4, 'seed': seed() * 16 + s}),
+                         list(range(16)), 'lexcheck.TextJudge', {}, tlc_kwargs={'timeout': 3000})
+        agg = merge(res)
+        rep.add_tlc('StoneTok/edits-simulate', agg, {'MaxEdits': 3, 'num': 16 * 1250})
+        rep.add_judged(agg)
     rep.exhaustive = True
     rep.coverage_extra['rule'] = ('every sequence of <= %d physical lines over a 33-letter line alphabet (indent 0/2/4/8 x plain/open/'
                                   'close/open-close/nested-open/trailing-comment/whitespace-only/comment + blank), each tokenised by the real Lexer (skeleton and '
